@@ -65,18 +65,16 @@ def run(eng, R):
     from .formulas import extract
 
     fcm = get_func(p, SG, "_calculate_cov_mat")
-    if extract(fcm, "assign", "_abs_err", "=(self.relative)"):
-        check(eng, R, "S-abs", SG, "_calculate_cov_mat", "assign", "self.error_rel * self.reference", target="_abs_err", when="=(self.relative)", known=KS,
-              what="the covariance of a relative source is built from relative size x signed reference values (the sign carries into the correlated part)")
+    KC = KS + ["self._corr_coeff", "()diag", "()outer", "()zeros_like", "self.error_rel", "self.error", "self.reference"]
+    got = sorted({x.canon() for _, x, _ in extract(fcm, "store", "self._cov_mat_cor_part", ["(self.relative)", "(self._corr_coeff > 0)"], node=eng.cnode(fcm))})
+    if got == ["self._corr_coeff*outer(self.error,self.error)"]:
+        R.ob("S-abs", "%s._calculate_cov_mat:_abs_err:=(self.relative)" % SG, False, (fcm.file, fcm.lineno),
+             "the covariance of a relative source is built from `self.error`, i.e. relative size x |reference| (rule S-abs on the error getter): the sign of the "
+             "reference is lost, so the correlated part differs from the explicit matrix form (sigma sigma^T) o rho for references of mixed sign")
     else:
-        forms = extract(fcm, "assign", "_abs_err")
-        canon = sorted({x.canon() for _, x, _ in forms})
-        if canon == ["self.error"]:
-            R.ob("S-abs", "%s._calculate_cov_mat:_abs_err:=(self.relative)" % SG, False, (fcm.file, fcm.lineno),
-                 "the covariance of a relative source is built from `self.error`, i.e. relative size x |reference| (rule S-abs on the error getter): the sign of the "
-                 "reference is lost, so the correlated part differs from the explicit matrix form (sigma sigma^T) o rho for references of mixed sign")
-        else:
-            raise AnalysisError("SimpleGaussianError._calculate_cov_mat: absolute error of a relative source not recognised (%s)" % canon)
+        check(eng, R, "S-abs", SG, "_calculate_cov_mat", "store", "outer(self.error_rel * self.reference, self.error_rel * self.reference) * self._corr_coeff", target="self._cov_mat_cor_part",
+              when=["(self.relative)", "(self._corr_coeff > 0)"], known=KC,
+              what="the covariance of a relative source is built from relative size x signed reference values (the sign carries into the correlated part)")
 
     # ---- scalar broadcast
     for cname, fname in (("DataContainerBase", "add_error"), ("XYContainer", "add_error"), ("MultiFit", "add_error")):
